@@ -76,7 +76,18 @@ class C08(Engine):
     def gen_case(self, run_seed):
         knobs = random.Random(mix(run_seed, 'knobs'))
         codec = knobs.choice(CODECS)
-        spec, text, parsed = world.gen_world(run_seed, codec)
+        features = None
+
+        if knobs.random() < 0.4:
+            # Bias towards the constructs where decoders skip unknown data.
+            rng = random.Random(mix(run_seed, 'features'))
+            features = sorted(set(
+                [f for f in specgen.ALL_FEATURES if rng.random() < 0.5]
+                + ['ext', 'ext_groups', 'choice', 'seqof', 'seq', 'int',
+                   'optional', 'refs']))
+
+        spec, text, parsed = world.gen_world(run_seed, codec,
+                                             features=features)
         messages = []
 
         if parsed is not None:
